@@ -38,34 +38,61 @@ def optional_reflection(self: "ref:OptionalType") -> "seq[dyn]":
 
 @contract("fcp.specs.metadata:MetaData.reflection")
 def metadata_reflection(self: "ref:MetaData") -> "dyn":
-    ensures(dyn_get(result, "line") == d_mk_int(self.line) and dyn_get(result, "end_line") == d_mk_int(self.end_line)
-            and dyn_get(result, "column") == d_mk_int(self.column) and dyn_get(result, "end_column") == d_mk_int(self.end_column)
-            and dyn_get(result, "start_pos") == d_mk_int(self.start_pos) and dyn_get(result, "end_pos") == d_mk_int(self.end_pos)
-            and dyn_get(result, "filename") == to_dyn(self.filename))
+    ensures(is_meta(result, self))
 
 
 @contract("fcp.specs.struct_field:StructField.reflection")
 def field_reflection(self: "ref:StructField") -> "dyn":
-    ensures(dyn_get(result, "name") == to_dyn(self.name) and dyn_get(result, "field_id") == d_mk_int(self.field_id))
-    ensures(dyn_get(result, "type") == d_mk_list(type_chain(self.type)))
-    ensures(dyn_get(result, "unit") == to_dyn(self.unit))
-    ensures(dyn_get(result, "min_value") == to_dyn(self.min_value) and dyn_get(result, "max_value") == to_dyn(self.max_value))
+    ensures(is_field_rec(result, self))
+
+
+@contract("fcp.specs.struct:Struct.reflection")
+def struct_reflection(self: "ref:Struct") -> "dyn":
+    ensures(is_struct_rec(result, self))
 
 
 @contract("fcp.specs.enum:Enumeration.reflection")
 def enumeration_reflection(self: "ref:Enumeration") -> "dyn":
-    ensures(dyn_get(result, "name") == to_dyn(self.name) and dyn_get(result, "value") == d_mk_int(self.value))
+    ensures(is_enumeration_rec(result, self))
+
+
+@contract("fcp.specs.enum:Enum.reflection")
+def enum_reflection(self: "ref:Enum") -> "dyn":
+    ensures(is_enum_rec(result, self))
 
 
 @contract("fcp.specs.signal_block:SignalBlock.reflection")
 def signal_block_reflection(self: "ref:SignalBlock") -> "dyn":
-    note("the fields of a signal block are an open dict: listed as {name, value} pairs in declaration order (not modelled further)")
-    ensures(dyn_get(result, "name") == to_dyn(self.name))
+    note("the fields of a signal block are an open dict: listed as {name, value} pairs in declaration order, values as str()")
+    ensures(is_signal_block_rec(result, self))
 
 
 @contract("fcp.specs.impl:Impl.reflection")
 def impl_reflection(self: "ref:Impl") -> "dyn":
     note("call-resolves obligation: every method called on a signal block must exist (an AttributeError path is an obligation failure)")
-    may_raise(ValueError)
-    ensures(dyn_get(result, "name") == to_dyn(self.name) and dyn_get(result, "protocol") == to_dyn(self.protocol)
-            and dyn_get(result, "type") == to_dyn(self.type))
+    ensures(is_impl_rec(result, self))
+
+
+@contract("fcp.specs.method:Method.reflection")
+def method_reflection(self: "ref:Method") -> "dyn":
+    ensures(is_method_rec(result, self))
+
+
+@contract("fcp.specs.service:Service.reflection")
+def service_reflection(self: "ref:Service") -> "dyn":
+    ensures(is_service_rec(result, self))
+
+
+@contract("fcp.specs.v2:encode_version")
+def encode_version(version: "str") -> "int":
+    note("'major.minor' -> major*1000+minor; anything else raises ValueError (the parser never sets the version: it is the "
+         "class default '3.0')")
+    raises(ValueError, iff=not version_ok(version))
+    ensures(result == version_code(version))
+
+
+@contract("fcp.specs.v2:FcpV2.reflection")
+def fcp_reflection(self: "ref:FcpV2") -> "dyn":
+    note("the parser never sets the version (class default '3.0', for which version_ok holds: checked natively)")
+    raises(ValueError, iff=not version_ok(self.version))
+    ensures(is_fcp_rec(result, self))
